@@ -26,6 +26,18 @@ static void _jbn_add_item(struct jbl_node *parent, struct jbl_node *node);
 
 void iwjson_ftoa(long double val, char buf[static IWNUMBUF_SIZE], size_t *out_len) {
   int len = snprintf(buf, IWNUMBUF_SIZE, "%.8Lf", val);
+  if (len >= IWNUMBUF_SIZE) { // fixed notation does not fit (|val| >= ~1e22): exponent form always does, nothing to trim
+    len = snprintf(buf, IWNUMBUF_SIZE, "%.17Le", val);
+    char *ecp = strchr(buf, ',');
+    if (ecp) {
+      *ecp = '.';
+    }
+    *out_len = (len > 0 && len < IWNUMBUF_SIZE) ? (size_t) len : 0;
+    if (!*out_len) {
+      buf[0] = '\0';
+    }
+    return;
+  }
   // FIXME: Dirt hack. I won't touch global locale.
   char *cp = strchr(buf, ',');
   if (cp) {
